@@ -31,7 +31,7 @@ P.update({
 })
 
 P.update({
-  'C03': (True, 'Writer.tla, WriterLin.tla, Writer_Trace.tla',
+  'C03': (True, 'Writer.tla, WriterLin.tla, Writer_Trace.tla, TagQueue.tla',
           'TLC exhausts Writer.tla (program-counter machine of writeCachedDataPoints/writeForever with a storing thread, create limiting, lag, and up to 2 failing exists/create/write calls) and proves no double write, no rewrite after an error, write only for existing files, nothing silently discarded and the counters; the real writeForever() runs under the line-level deterministic scheduler against real stores, an in-memory database plugin executing a fault script (every single-fault placement, then random multi-fault scripts) with the real counters and the twisted error log, and WriterLin.tla judges every recorded trace clause by clause; executions at lock/backend-call granularity are in addition validated against Writer.tla itself (Writer_Trace.tla: logged events matched to actions, silent writer steps inserted by TLC, corrupted traces rejected).',
           'in-memory TimeSeriesDatabase plugin stands for Whisper/Ceres (not installed); log.err() counts as reported; linearization-point events logged from the cooperative cache lock; line granularity',
           TECH),
